@@ -138,8 +138,12 @@ func HarnessC16UDP(a []int) {
 		verifDatagram(junk)
 	}
 	var want []ServicePackable
+	stride := 1
+	if len(a) > 3 && a[3] > 0 {
+		stride = a[3] // stride 5 makes every datagram the same kind (e.g. all bus-monitor frames)
+	}
 	for i := 0; i < K; i++ {
-		v, b := c16Frame(kind0 + i)
+		v, b := c16Frame(kind0 + i*stride)
 		want = append(want, v)
 		verifDatagram(b)
 	}
